@@ -128,3 +128,26 @@ def sweep_package() -> tuple:
         protos.append(Proto("SwS" + cap, [("pad", P("string")), ("s", S(t)), ("tail", P("uint32"))]))
         cases.append(("SwS" + cap, "stream", t, v))
     return Pkg("Sweep", defs + protos), cases
+
+
+def enum_base_package() -> Pkg:
+    """enums and flags over every integer base type, spelled directly, through a named alias, through a chain of aliases and through an alias of an
+    imported package; used as step, stream item, vector item, record field, map value and union case"""
+    lib = Pkg("BaseLib", [Al("LibByte", P("uint8")), Al("LibWide", P("uint64")), En("LibLevel", [("lo", 0), ("hi", 200)], "uint8", False, True, None, "LibByte")])
+    defs = [Al("Byte", P("uint8")), Al("Word", P("uint16")), Al("Word2", N("Word")), Al("Big", P("uint64")), Al("Small", P("int8")), Al("Long", P("int64")), Al("Plain", P("int32")),
+            En("EbDirect8", [("a", 0), ("b", 255)], "uint8"), En("EbAlias8", [("a", 0), ("b", 255), ("c", 77)], "uint8", False, True, None, "Byte"),
+            En("EbAlias16", [("load", 300), ("store", 65535), ("nop", 0)], "uint16", False, True, None, "Word"),
+            En("EbChain16", [("p", 1), ("q", 40000)], "uint16", False, True, None, "Word2"),
+            En("EbAlias64", [("zero", 0), ("top", 2**64 - 1), ("mid", 2**40)], "uint64", False, True, None, "Big"),
+            En("EbAliasS8", [("neg", -128), ("pos", 127)], "int8", False, True, None, "Small"),
+            En("EbAliasS64", [("neg", -2**63), ("pos", 2**63 - 1)], "int64", False, True, None, "Long"),
+            En("EbAlias32", [("x", -5), ("y", 5)], "int32", False, True, None, "Plain"),
+            En("EbFlags16", [("r", 1), ("w", 2), ("x", 0x8000)], "uint16", True, True, None, "Word"),
+            En("EbFlags64", [("lowbit", 1), ("highbit", 2**63)], "uint64", True, True, None, "Big"),
+            En("EbImported", [("i", 9), ("j", 250)], "uint8", False, True, None, "BaseLib.LibByte")]
+    names = [d.name for d in defs if isinstance(d, En)]
+    defs.append(Rec("EbAll", [(n[2:3].lower() + n[3:], N(n)) for n in names] + [("lib", N("LibLevel", (), "BaseLib"))]))
+    protos = [Proto("EbSteps", [(n[2:3].lower() + n[3:], N(n)) for n in names] + [("lib", N("LibLevel", (), "BaseLib"))]),
+              Proto("EbContainers", [("all", N("EbAll")), ("alls", S(N("EbAll"))), ("v16", V(N("EbAlias16"))), ("s64", S(N("EbAlias64"))), ("m", M(P("string"), N("EbFlags16"))),
+                                     ("u", U(((None, N("EbAlias8")), (None, P("string"))))), ("o", Opt(N("EbChain16"))), ("fv", V(N("EbAliasS8"), 3)), ("arr", A(N("EbAlias8"), None))])]
+    return Pkg("EnumBases", defs + protos, [lib])
